@@ -34,7 +34,7 @@ ASSUMPTIONS = [
     "for super-majority (assorter bound u_a != 1) the one- and two-vote values are those of make_overstatement's documentation: overstatements of u_a/2 and u_a",
     "simulation estimates are judged only by the prefix-crossing clause and by range (the quantile convention is not part of the property)",
 ]
-REQUIRE_VAC = ["estimates_strictly_inside", "estimates_equal_N", "prefix_crossing_cases", "scripted_rng_runs", "polling_tallies", "interleave_cases", "contest_level_cases", "oneaudit_audit_level_cases", "audit_level_prefix_crossing_cases"]
+REQUIRE_VAC = ["estimates_strictly_inside", "estimates_equal_N", "prefix_crossing_cases", "scripted_rng_runs", "polling_tallies", "interleave_cases", "contest_level_cases", "oneaudit_audit_level_cases", "audit_level_prefix_crossing_cases", "first_round_estimates_without_style", "supermajority_comparison_estimates"]
 ALPHAS = [0.05, 0.2, 0.5]
 
 
@@ -252,6 +252,31 @@ def judge_polling(m, N, n_win, n_lose, alpha):
     if got != want:
         return [("C16|find_sample_size|POLLING", f"tally A={n_win}, B={n_lose}, N={N}: interleaved population first crosses {alpha} at {want}, estimate {got}")], got
     return [], got
+
+
+def judge_first_round_no_style(m, N, k_win, alpha):
+    """the documented first call, audit.find_sample_size(contests, cvrs=cvrs), in an audit WITHOUT style information (the
+    normal setting for polling, legal for comparison): the contest estimate is that of its assertion"""
+    out = []
+    with warnings.catch_warnings():
+        warnings.simplefilter("ignore")
+        try:
+            con, asn, audit, cvrs = comparison_contest(N, k_win, Audit.AUDIT_TYPE.CARD_COMPARISON, m, alpha)
+            stratum = next(iter(audit.strata.values()))
+            stratum.use_style = False
+            con.use_style = False
+            asn.set_margin_from_cvrs(audit, cvrs)
+            want = asn.find_sample_size(data=None, rate_1=0, rate_2=0, reps=None)
+            con2, asn2, audit2, cvrs2 = comparison_contest(N, k_win, Audit.AUDIT_TYPE.CARD_COMPARISON, m, alpha)
+            next(iter(audit2.strata.values())).use_style = False
+            con2.use_style = False
+            asn2.set_margin_from_cvrs(audit2, cvrs2)
+            total = audit2.find_sample_size(contests={"con": con2}, cvrs=cvrs2)
+        except Exception as e:  # noqa
+            return [(f"C16|first-round-without-style|exception|{type(e).__name__}", f"Audit.find_sample_size(contests, cvrs) with use_style=False raised {type(e).__name__}: {str(e)[:80]}")]
+    if con2.sample_size != want or total != want:
+        out.append(("C16|first-round-without-style|estimate", f"assertion estimate {want}, contest.sample_size {con2.sample_size}, returned total {total}"))
+    return out
 
 
 def judge_contest_level(m, N, tallies, alpha, r1):
@@ -632,6 +657,17 @@ def run_shard(sh, rec):
                             rec.vac("audit_with_data_cases")
                             for key, what in v:
                                 rec.violate(key, what, {"kind": "auditdata", "m": mi, "N": N, "tallies": [a_, b_, c_], "alpha": alpha, "L": L})
+    elif kind == "nostyle":
+        _, mi = sh
+        for N in (8, 12):
+            for k_win in range(N // 2 + 1, N + 1):
+                for alpha in ALPHAS:
+                    rec.state()
+                    rec.trans()
+                    rec.evals(2)
+                    rec.vac("first_round_estimates_without_style")
+                    for key, what in judge_first_round_no_style(METHODS[mi], N, k_win, alpha):
+                        rec.violate(key, what, {"kind": "nostyle", "m": mi, "N": N, "k_win": k_win, "alpha": alpha})
     elif kind == "prefixsim":
         _, mi = sh
         m = METHODS[mi]
@@ -706,6 +742,7 @@ def explore(tier, seed):
         sh.append(("wide", mi))
         sh.append(("detbig", mi))
         sh.append(("prefixsim", mi))
+        sh.append(("nostyle", mi))
     return core.pmap(run_shard, sh, seed, progress="C16")
 
 
@@ -725,6 +762,8 @@ def run_case(case):
         return judge_polling(METHODS[case["m"]], case["N"], case["n_win"], case["n_lose"], case["alpha"])[0]
     if k == "contest":
         return judge_contest_level(METHODS[case["m"]], case["N"], tuple(case["tallies"]), case["alpha"], case["r1"])[0]
+    if k == "nostyle":
+        return judge_first_round_no_style(METHODS[case["m"]], case["N"], case["k_win"], case["alpha"])
     if k == "prefixsim":
         return judge_audit_prefix_sim(METHODS[case["m"]], case["N"], case["k_win"], case["L"], case["alpha"])[0]
     if k == "auditdata":
